@@ -40,7 +40,7 @@ def _worker(args):
                       path_wall_s=item.get("path_wall_s", opts["path_wall"]),
                       max_paths=item.get("max_paths", opts.get("max_paths")),
                       wall_s=item.get("wall_s", opts.get("item_wall")),
-                      validate=item.get("validate", True), tol=item.get("tol", 1e-6))
+                      validate=item.get("validate", True), tol=item.get("tol", 1e-6), extra_witness=item.get("extra_witness", False))
         st = ex.run(initial_prefix=item.get("prefix"))
         st.item = item
         st.error = None
@@ -150,10 +150,13 @@ def run_check(modname, tier, seed, replay=None):
 
     status = EXIT_OK
     lines = []
-    for fid, lst in known_seen.items():
-        f = [x for x in kf["findings"] if x["id"] == fid][0]
-        lines.append("KNOWN-FINDING: property=%s %s (%d path(s) in this run; e.g. %s)" % (
-            pid, f["what"], len(lst), json.dumps(jsonable(lst[0]["assignment"]))[:200]))
+    for f in kf.get("findings", []):
+        if f["property"] != pid:
+            continue
+        lst = known_seen.get(f["id"], [])
+        eg = (" e.g. " + json.dumps(jsonable(lst[0]["assignment"]))[:200]) if lst else ""
+        lines.append("KNOWN-FINDING: property=%s %s [%s; witness %s] (%d path(s) of this run hit it;%s)" % (
+            pid, f["what"], f["id"], json.dumps(f.get("witness"))[:160], len(lst), eg))
     replay_paths = []
     if violations:
         status = EXIT_VIOLATION
@@ -230,6 +233,7 @@ def run_check(modname, tier, seed, replay=None):
             "obligations_unknown": total.unknown,
             "inconclusive_paths": total.inconclusive_paths,
             "float_boundary_paths_not_validated": total.boundary_paths,
+            "extra_large_value_witnesses_run_natively": total.extra_witnesses,
             "queries": total.queries,
             "solver_time_s": round(total.solver_time, 2),
             "nonlinear_terms": total.nonlinear,
